@@ -61,7 +61,7 @@ def main():
                 elif m.get("neutral"):
                     verdict = "ok-silent" if (r.returncode == 0 and not viol) else "FALSE-ALARM"
                 else:
-                    exp = m.get("expect", "")
+                    exp = m.get("expect", "") if prop == m["property"] else ""
                     hit = viol and (exp in out)
                     verdict = "ok-caught" if hit else ("CAUGHT-BUT-OTHER-KEY" if viol else "MISSED")
                 res.append((m["id"], prop, verdict))
